@@ -4,6 +4,7 @@ go 1.23
 
 require (
 	github.com/golang/snappy v0.0.1
+	github.com/kavu/go_reuseport v1.4.0
 	github.com/samaritan-proxy/samaritan v0.0.0
 	google.golang.org/grpc v1.23.1
 	pgregory.net/rapid v1.3.0
@@ -15,7 +16,6 @@ require (
 	github.com/gogo/protobuf v1.3.0 // indirect
 	github.com/golang/mock v1.3.1 // indirect
 	github.com/golang/protobuf v1.3.2 // indirect
-	github.com/kavu/go_reuseport v1.4.0 // indirect
 	github.com/kirk91/stats v0.0.5-0.20191121064423-8a4d70fadb55 // indirect
 	github.com/pkg/errors v0.8.1 // indirect
 	github.com/samaritan-proxy/circonusllhist v0.1.4-0.20191028071046-9512360317cd // indirect
